@@ -145,6 +145,27 @@ def run_step(st):
                 "getter": {k2: list(v) for k2, v in ri.getter_rzil.items()},
                 "name": ri.name,
             }
+        if op == "probe":
+            # catalogue check: what is in the transformer at the moment reset() is called for this text
+            t = c.transformer
+            seen = {}
+            orig = t.reset
+
+            def wrapped():
+                if "p" not in seen:
+                    seen["p"] = proj(c)
+                return orig()
+
+            t.reset = wrapped
+            try:
+                try:
+                    c.compile_c_stmt(st["code"])
+                    ok = True
+                except Exception:
+                    ok = False
+            finally:
+                t.reset = orig
+            return {"ok": ok, "before_reset": seen.get("p", {})}
         if op == "addsub":
             c.add_sub_routine(st["name"], st["ret"], st["params"], st["body"])
             sr = c.get_sub_routine(st["name"])
